@@ -21,36 +21,49 @@ CLAIMS = {
     "C02": dict(
         text="Quad events (plain, checked, saturating, wrapping, overflowing of one call on identical operands) for neg, "
              "abs, add, sub, mul, div, mul_int, div_int are validated by TLC against one exact R and the generic policy "
-             "operators CheckedOk/SatOk/WrapOk/OvfOk of Sem.tla; a panic in a policy form with a non-zero divisor is rejected.",
+             "operators CheckedOk/SatOk/WrapOk/OvfOk of Sem.tla; a panic in a policy form with a non-zero divisor is rejected. Every "
+             "by-reference / assigning-by-reference spelling of the operators (and the integer on the left of *) is recorded with the call; "
+             "the 16..128-bit corpus is recorded under the checked build profile as well.",
         technique="TLA+ trace validation with TLC (impl->spec), policies defined once over exact integers",
         design_ref="6/C02"),
     "C06": dict(
         text="Every value of every 8-bit layout (and lattice+random values of 88 wider layouts) through ceil/floor/round/"
              "round_ties_to_even (5 forms each), round_to_zero, int, frac; TLC compares with the exact integer roundings of "
              "Sem.tla (FloorK, CeilK, RoundAwayK, RoundEvenK, TruncK) and the policy operators; sweep over all layouts. Design model "
-             "MC_Round: the masks and 0/1-integer-bit special cases as coded = exact roundings for every value of 68 layouts.",
-        technique="TLA+ trace validation with TLC (impl->spec), exhaustive on the 8-bit types",
+             "MC_Round: the masks and 0/1-integer-bit special cases as coded = exact roundings for every value of 68 layouts; RoundInt "
+             "(Apalache): the same for EVERY value of real layouts of 16..128 bits (0, 1, 2, half, all integer bits). The 16..128-bit corpus "
+             "is recorded under the checked build profile as well.",
+        technique="TLA+ trace validation with TLC (impl->spec), exhaustive on the 8-bit types; TLC (small widths) and Apalache (real widths) "
+                  "design models of the rounding code",
         design_ref="6/C06"),
     "C07": dict(
         text="rem, rem_euclid, div_euclid with fixed and integer divisors in every provided form, validated by TLC against "
              "Euclidean division on the raw bits (ERem/EQuo of Sem.tla). The known defect of the div_euclid family is a named "
              "deviation: accepted only when the as-coded layer-A model (tla/alg/EuclidAlg.tla) reproduces all five logged forms "
-             "bit for bit, so any other wrong answer is still a violation.",
+             "bit for bit, so any other wrong answer is still a violation. Assigning and by-reference spellings of % and the deprecated "
+             "inherent wrapping_/overflowing_rem_int are recorded with the call; the 16..128-bit corpus also under the checked profile.",
         technique="TLA+ trace validation with TLC (impl->spec) + named-deviation A-model for the recorded defect",
         design_ref="6/C07"),
     "C03": dict(
         text="Recorded comparisons of the real library (==, !=, <, <=, >, >=, partial_cmp; both operand orders) between fixed types "
              "(all 324 ordered pairs of 8-bit layouts, 288 cross-width pairs), 12 primitive integer types and f32/f64 bit patterns "
              "(every class incl. -0, subnormals, top binade, infinities, NaN payloads) are validated by TLC against the exact rational "
-             "comparison CmpVal/CmpFloat of tla/sem/SemConv.tla; Ord/Hash within one type.",
-        technique="TLA+ trace validation with TLC (impl->spec), exact rational comparison; floats decoded from bit patterns",
+             "comparison CmpVal/CmpFloat of tla/sem/SemConv.tla; Ord/Hash within one type; all-layout sweep under both build profiles. "
+             "Design models: MC_Cmp (TLC, 900 layout pairs of widths 3..5 x all values; thorough: all 324 pairs of the 8-bit layouts x all "
+             "65 536 value pairs) and CmpInt (Apalache: comparison as coded = exact comparison for EVERY pair of values of real layout "
+             "pairs up to 128 bits; refuted without the repaired sign check).",
+        technique="TLA+ trace validation with TLC (impl->spec), exact rational comparison; floats decoded from bit patterns; TLC and "
+                  "Apalache design models of the comparison code",
         design_ref="6/C03"),
     "C04": dict(
         text="fixed<->fixed, fixed<->integer and bool conversions through to_num and from_num call paths in all five forms, plus ~1100 "
              "existing From/LossyFrom impls, validated by TLC against R = floor(x * 2^(fd-fs)) and the generic policies; From must be "
              "lossless and in range for every source value; compile-time impl-existence probes over 3932 layout pairs. Design model MC_Conv: "
-             "to_fixed_helper + overflowing_/saturating_from_fixed as coded = floor shift / wrap / clamp for 1296 layout pairs x all values.",
-        technique="TLA+ trace validation with TLC (impl->spec) + TLC design model of the conversion core", design_ref="6/C04"),
+             "to_fixed_helper + overflowing_/saturating_from_fixed as coded = floor shift / wrap / clamp for 1296 layout pairs x all values; "
+             "ConvInt (Apalache): the same for EVERY source value of real layout pairs up to 128 bits, including the shift-by-128 arms. "
+             "All-layout sweep under both build profiles.",
+        technique="TLA+ trace validation with TLC (impl->spec) + TLC (small widths) and Apalache (real widths) design models of the "
+                  "conversion core", design_ref="6/C04"),
     "C05": dict(
         text="float->fixed (five forms, both call paths) and fixed->float (five forms) for f32/f64 over 106 layouts: TLC recomputes "
              "round-to-nearest-even on exact integers (FloatToFixR, FixToFloatBits incl. gradual underflow and overflow to infinity) and "
